@@ -253,11 +253,12 @@ class Gen:
             return ["assert %s or True" % self.cond()]
         return ["%s = %s" % (self.rng.choice(self.writable()), self.expr())]
 
-    def program(self, nstmts=None):
+    def program(self, nstmts=None, head=False):
+        """head: the program stands alone (nothing is put in front of it), so it may start with a docstring / a __future__ import"""
         lines = ["a = 1", "b = 2", "c = 3", "d = 4", "bx = Box(5)"]
-        if self.rng.random() < 0.2:
+        if head and self.rng.random() < 0.2:
             lines = ["from __future__ import annotations"] + lines
-        if self.rng.random() < 0.25:
+        if head and self.rng.random() < 0.25:
             # a module docstring, or a constant that merely looks like one (then the future import is no longer at the top: drop it)
             doc = self.rng.choice(['"""mdoc"""', '"""mdoc"""', "7", "b'x'"])
             if not doc.startswith('"') and lines[0].startswith("from __future__"):
@@ -269,9 +270,9 @@ class Gen:
         try:
             ast.parse(src)
         except SyntaxError:
-            return self.program(nstmts)
+            return self.program(nstmts, head)
         return src
 
 
-def gen_program(rng, profile="core", nstmts=None, max_depth=3):
-    return Gen(rng, profile, max_depth).program(nstmts)
+def gen_program(rng, profile="core", nstmts=None, max_depth=3, head=False):
+    return Gen(rng, profile, max_depth).program(nstmts, head)
